@@ -11,6 +11,7 @@ import (
 	"sync"
 
 	"github.com/virus-evolution/gofasta/pkg/fastaio"
+	"github.com/virus-evolution/gofasta/pkg/vhook"
 
 	biogosam "github.com/biogo/hts/sam"
 )
@@ -253,6 +254,7 @@ func blockToPairwiseAlignment(cSR chan samRecords, cPair chan alignPair, cErr ch
 			pair.refname = string(group.records[0].Ref.Name())
 			pair.queryname = group.records[0].Name
 			pair.idx = group.idx
+			vhook.Jitter("sam.blockToPairwiseAlignment", group.idx)
 			cPair <- pair
 
 		} else {
@@ -273,6 +275,7 @@ func blockToPairwiseAlignment(cSR chan samRecords, cPair chan alignPair, cErr ch
 			pair.refname = string(group.records[0].Ref.Name())
 			pair.idx = group.idx
 
+			vhook.Jitter("sam.blockToPairwiseAlignment", group.idx)
 			cPair <- pair
 		}
 	}
@@ -311,6 +314,7 @@ func trimAlignment(trim bool, trimStart int, trimEnd int, cPairIn chan alignPair
 	if !trim {
 		// if no trimming is specified we take the whole sequence:
 		for pair := range cPairIn {
+			vhook.Jitter("sam.trimAlignment", pair.idx)
 			cPairOut <- pair
 		}
 	} else {
@@ -325,6 +329,7 @@ func trimAlignment(trim bool, trimStart int, trimEnd int, cPairIn chan alignPair
 			pair.query = pair.query[adjTrimStart:adjTrimEnd]
 			pair.ref = pair.ref[adjTrimStart:adjTrimEnd]
 
+			vhook.Jitter("sam.trimAlignment", pair.idx)
 			cPairOut <- pair
 		}
 	}
